@@ -33,6 +33,9 @@ func (g *Gen) genTx(fam string) *world.TxJSON {
 		if g.R.Intn(25) == 0 {
 			dst = h.Addr
 		}
+		if len(dst) != 32 {
+			dst = g.anyAccount() // a transaction's receiver always is a 32-byte address
+		}
 		tok, _ := g.tokenID(h.Token, 0)
 		args := [][]byte{tok, g.amount(h.Value)}
 		args = append(args, g.attached(dst)...)
